@@ -66,12 +66,12 @@ fn single_op(property: &str, data: &[u8]) -> Option<FuzzFail> {
                 4 => OpKind::Axpy(0.0),
                 _ => OpKind::Axpy((p[1] as f64 - 128.0) / 16.0),
             };
-            judge(property, FwdCase { op, leaves: vec![leaf(&a, VKind::Signed, 1, false), leaf(&b, VKind::Signed, 2, false)], force_exact: None })
+            judge(property, FwdCase { op, leaves: vec![leaf(&a, VKind::Signed, 1, false), leaf(&b, VKind::Signed, 2, false)], force_exact: None, second_is_view_of_first: None })
         }
         "C05" => {
             let cfgs = crate::gens::matmul_cfgs(&[(1 + p[0] as usize % 4, 1 + p[1] as usize % 4, 1 + p[2] as usize % 4)], true, 2, 3);
             let cfg = &cfgs[(vseed as usize) % cfgs.len()];
-            judge(property, FwdCase { op: cfg.op(), leaves: cfg.leaves([false, false, false]), force_exact: None })
+            judge(property, FwdCase { op: cfg.op(), leaves: cfg.leaves([false, false, false]), force_exact: None, second_is_view_of_first: None })
         }
         "C06" => {
             let (rows, cols) = (1 + p[0] as usize % 7, 1 + p[1] as usize % 7);
@@ -85,7 +85,7 @@ fn single_op(property: &str, data: &[u8]) -> Option<FuzzFail> {
             let depth = 1 + data[1] as usize % 3;
             image.extend([depth, rows, cols]);
             let filters = vec![1 + data[2] as usize % 3, depth, fr, fc];
-            judge(property, FwdCase { op: OpKind::Conv { sr: 1 + data[3] as usize % 3, sc: 1 + data[4] as usize % 3 }, leaves: vec![leaf(&image, VKind::Int, 1, false), leaf(&filters, VKind::Int, 2, false)], force_exact: None })
+            judge(property, FwdCase { op: OpKind::Conv { sr: 1 + data[3] as usize % 3, sc: 1 + data[4] as usize % 3 }, leaves: vec![leaf(&image, VKind::Int, 1, false), leaf(&filters, VKind::Int, 2, false)], force_exact: None, second_is_view_of_first: None })
         }
         "C07" => {
             let op = match p[3] % 8 {
@@ -101,7 +101,7 @@ fn single_op(property: &str, data: &[u8]) -> Option<FuzzFail> {
                 6 => OpKind::Exp,
                 _ => OpKind::ScaleR((p[1] as f64 - 128.0) / 32.0),
             };
-            judge(property, FwdCase { op, leaves: vec![leaf(&a, VKind::Small, 1, false)], force_exact: None })
+            judge(property, FwdCase { op, leaves: vec![leaf(&a, VKind::Small, 1, false)], force_exact: None, second_is_view_of_first: None })
         }
         _ => {
             // C02: gradients of one operation
